@@ -20,14 +20,14 @@ structure OkV (c : Content) : Prop where
   nd : ("time" :: (omKeys c.vars ++ omKeys c.pars ++ omKeys c.derived ++ omKeys c.rxns
           ++ (omKeys c.vars).map dName)).Nodup
   stNd : ∀ kv ∈ c.rxns, (omKeys kv.2.stoich).Nodup
-  eqs : allVarsHaveEq c = true
+  hasEq : (diffEqs c.rxns).isEmpty = false
   onVars : stoichOnVars c = true
   nonempty : c.vars ≠ []
 
 theorem OkV.of_okC {c : Content} (h : okC c = true) : OkV c := by
   simp only [okC, Bool.and_eq_true, wellNamed] at h
   obtain ⟨⟨⟨⟨⟨⟨h1, h2⟩, h5⟩, h6, h7⟩, h8⟩, h9⟩, h10⟩ := h
-  refine ⟨by simpa using h1, by simpa using h2, h5, (nodupB_iff _).mp h6, ?_, h8, h9, ?_⟩
+  refine ⟨by simpa using h1, by simpa using h2, h5, (nodupB_iff _).mp h6, ?_, (by simp only [C07.hasEq] at h8; simpa using h8), h9, ?_⟩
   · intro kv hkv
     exact (nodupB_iff _).mp (List.all_eq_true.mp h7 kv hkv)
   · intro hv; simp [hv] at h10
